@@ -79,3 +79,9 @@ Print Assumptions pooled_codecs_never_shared.
 Theorem shared_error_values_are_only_read : handler_never_writes_error_meta = true.
 Proof. exact Plumbing.error_metadata_is_read_only_for_the_library. Qed.
 Print Assumptions shared_error_values_are_only_read.
+
+(* the response's header and trailer maps reach user code only after the request
+   goroutine has finished writing them (the accessors wait for responseReady) *)
+Theorem response_maps_handed_over_after_they_are_written : client_accessors_wait_for_response = true.
+Proof. exact Plumbing.response_accessors_wait. Qed.
+Print Assumptions response_maps_handed_over_after_they_are_written.
